@@ -78,6 +78,9 @@ def bfg_text(decls, header=''):
             if d.get('xdeps'):
                 incs += ', extra_deps=[%s]' % ', '.join(
                     ref_expr({'f': '', 't': x}, decls) for x in d['xdeps'])
+            if d.get('cdeps'):
+                incs += ', extra_compile_deps=[%s]' % ', '.join(
+                    ref_expr({'f': '', 't': x}, decls) for x in d['cdeps'])
             if d.get('pch'):
                 incs += ', pch=%r' % ('pch_%s.h' % n)
             L.append("%s = %s(%r, %s, libs=%s%s)" % (n, fn, n, srcs, libs,
